@@ -36,8 +36,9 @@ impl<'a> MtHelpers<'a> {
         });
         let error_type: Type = match associated_error {
             Some(error) => parse_quote!(#error),
-            // This should never happen as the `interface` macro requires the trait to have an associated `Error` type
-            None => unreachable!(),
+            // Missing `Error` type has already been reported by the `InterfaceInput::new`.
+            // Keep expanding so that this diagnostic is the one presented to the user.
+            None => parse_quote!(Error),
         };
 
         Self {
